@@ -3,24 +3,33 @@ from propcfg.common import COMMON_ASSUME
 CFG = {
     "bin": "c06",
     "extra_bins": ["tbp"],
-    "technique": "Lean 4 proof (induction over the directory listing; target decision table; record construction) + "
+    "technique": "Lean 4 proof (induction over the directory listing; target decision table; record construction, path texts as opaque values) + "
                  "differential correspondence on the context dumped by a real buildpack_main! executable",
     "level_text": "Theorems (every listing, every representability predicate, every variable combination): the platform environment "
                   "is exactly {(name, content) | regular file or symlink to one} with names and contents unchanged; a content that is "
                   "not a String is an error wherever it sits, never dropped; directories, links to directories, dangling links and a "
                   "missing env directory are tolerated; the target is built from exactly os/arch/variant/distro name/version with the "
                   "first missing or unrepresentable mandatory variable reported; with nothing forcing an error every context field "
-                  "equals its input; errors only when forced. The clause 'unrepresentable => reported error' is proved for everything "
+                  "equals its input; errors only when forced. The directories are carried as the texts the platform wrote (opaque byte strings): "
+                  "for every text given as <layers> argument and as CNB_BUILDPACK_DIR - absolute or relative, through links, with . / .. / doubled or "
+                  "trailing slashes - the context holds that text unchanged (identity; nothing resolved, made absolute or normalised), app_dir is what "
+                  "getcwd reports, and the spelling of the five supplied paths decides nothing else (context_paths_are_supplied_verbatim, "
+                  "..._nothing_else). The clause 'unrepresentable => reported error' is proved for everything "
                   "except CNB_TARGET_ARCH_VARIANT (known finding D7, counterexample theorem). Partial: plan/store/descriptor decoding is "
                   "the toml crate's (carried as opaque values in the model, sampled by the correspondence).",
     "level_note": "Partial: the decoding of buildpack plan, store.toml and buildpack.toml (toml + serde) is not modelled - the model carries "
                   "the decoded documents as opaque values and the correspondence compares the real executable's dump with generated trees; "
-                  "process environment, getcwd, read_dir and symlink resolution are the OS's. Known finding D7 (variant not UTF-8 => None). "
+                  "process environment, getcwd, read_dir and symlink resolution are the OS's. Paths: the model carries the supplied texts, never what they "
+                  "denote; that a text leads to the intended directory is established by the harness (canonicalize of the text = canonicalize of the "
+                  "object, else the case is refused), and app_dir is compared with the link-free absolute name of the app directory ($T/<app>), which is "
+                  "what getcwd returns on Linux however the directory was entered - the property text names the app directory, not the spelling the "
+                  "lifecycle used for chdir, which the process cannot see. The <platform> and <plan> arguments are in no context field (GenericPlatform "
+                  "keeps only the environment); their spelling is exercised for its effect on what is read through them. Known finding D7 (variant not UTF-8 => None). "
                   "Trusted: Lean kernel; Spec/ContextSpec.lean (my reading of the property); harness (tbp.rs dump, c06.rs generator, its "
                   "TOML emitter and canonical form); core Lean's ByteArray.validateUTF8 as the spec's notion of 'representable'.",
     "shrink": [(3, ",")],
     "rule": "one process run of the test buildpack (detect or build) per case. Seeded stream: quick 3 000 / thorough 40 000 cases (+9 fixed head cases covering "
-            "every target class): platform dir = missing / without env / env is a file / env is a dangling link / env is a link to a file / listing of 0..7 entries, "
+            "every target class; 1 case in 4 hands its paths over in other spellings, see paths): platform dir = missing / without env / env is a file / env is a dangling link / env is a link to a file / listing of 0..7 entries, "
             "names from 80 shapes (dots, leading / trailing dots and blanks, k8s ..data names, spaces, %, +, =, quotes, shell syntax, LF / CR / CRLF / BOM in the name, control "
             "characters, case variants, fullwidth and composed / decomposed look-alikes, names of the CNB_* inputs, UTF-8, non-UTF-8 bytes), kinds file, directory, empty "
             "directory, link to file (absolute, relative, link to link), link to a sibling entry, hard link (to a file outside, to a sibling), link to directory (also link "
@@ -44,11 +53,30 @@ CFG = {
             "256,257 (thorough 1024,1025), and metadata 8 / 16 / 32 / 48 levels deep; layout = 451 (thorough 6 051) cases whose plan, store and descriptor are written by "
             "harness/src/tomllayout.rs: 17 directed styles x 3 and seeded random styles over header / inline / dotted-key tables, [[x]] / inline arrays of tables, implicit "
             "super-tables, shuffled and quoted keys, literal / multi-line / escaped strings, +/hex/octal/binary/underscored numbers, CRLF, BOM, comments, blank lines, indentation, "
-            "odd spacing, no final newline, `entries = []` beside no key. Not covered (outside the quantifier): FIFOs / sockets / devices in env, unreadable files (the harness "
-            "runs as root), NUL in variable values (the OS refuses), contents above 256 KiB (the driver's list-based hex decoding). non-trivial = the platform dir lists at least one "
-            "entry, or some supplied value is unrepresentable, or the case belongs to a directed family; distinct = distinct input line",
+            "odd spacing, no final newline, `entries = []` beside no key. paths (field 11; quick 645 / thorough 6 345 cases, and 1 case in 4 of the seeded stream) = "
+            "the spelling of every path the platform hands over, per phase: the positional arguments (detect: platform, build plan; build: layers, platform, buildpack plan), "
+            "CNB_BUILDPACK_DIR, and the path the working directory (= app dir) is entered by. Spellings ($T = temp root, n = the object's name): plain $T/n; a parent that is a "
+            "link ($T/mnt/n with mnt -> ., $T/vol/0f3a/n with an absolute link, a chain of three); the object itself a link ($T/ln-x, also below a linked parent); $T/./n; "
+            "$T/sub/../n; .. after a link ($T/sub/up/../../n); $T//n; //...; $T/.//mnt/./n; for directories also n/, n//, n/., n/../n, link + trailing slash, linked parent + .. + "
+            "link + slash; relative to the working directory (not for the working directory itself): ../n, ./../n, ../mnt/n, ..//n, ../ln-x, a bare name and ./name (a link inside "
+            "the app directory), ../<app>/../n, ../sub/../n, and for directories ../n/, ./name/, name/. - 18 absolute + 12 relative spellings of a directory, 12 + 9 of the plan "
+            "file. Bounded-exhaustive part: every spelling of each path with the other four plain, and all five paths in the same spelling, for both phases (279 cases); every "
+            "state of the platform directory (missing / no env / env a file / dangling / link to file / empty / listing) x 4 link placements x plain and spelled layers (56); PWD / "
+            "OLDPWD in the process environment naming the app directory differently or another directory (10); then 300 (thorough 6 000) seeded combinations over all five paths on "
+            "base cases of every platform state. The dump records app_dir, buildpack_dir, layers_dir verbatim (hex of the OsStr bytes; only the temp root is replaced by $T, wherever "
+            "it occurs); the driver compares layers_dir and buildpack_dir with the supplied text byte for byte and app_dir with $T/<app>. The harness refuses a case whose text does "
+            "not lead to the object. Not covered (outside the quantifier): FIFOs / sockets / devices in env, unreadable files (the harness "
+            "runs as root), NUL in variable values (the OS refuses), contents above 256 KiB (the driver's list-based hex decoding); path texts that are not UTF-8 (open question, kept out of the default stream: 6 cases behind VERIF_C06_NONUTF8_PATHS=1 - a <layers> argument that is "
+            "not UTF-8 makes std::env::args panic, exit 101; such a CNB_BUILDPACK_DIR ends the process with exit 254; neither passes through on_error; a non-UTF-8 app dir is carried "
+            "unchanged) or longer "
+            "than PATH_MAX, a relative CNB_BUILDPACK_DIR combined with a relative argv[0] (the executable is always started by its plain absolute path), paths derived from "
+            "layers_dir (layer directories, store / launch / SBOM targets: not in the dump), a working directory that was removed or is unreadable. non-trivial = the platform "
+            "dir lists at least one entry, or some supplied value is unrepresentable, or the case belongs to a directed family, or some supplied path is not written in its "
+            "plain absolute form; distinct = distinct input line",
     "trusted_base": ["Spec/ContextSpec.lean is my reading of the property text",
                      "harness/src/bin/tbp.rs (context dump) and c06.rs (generator, TOML emitter, canonical form of TOML trees)",
+                     "c06.rs scaffold + check that every path text leads to its object (fs::canonicalize on both sides); the substitution $T <-> temp root on the way in and out; "
+                     "getcwd names the working directory by its link-free absolute path (Linux), which is what the driver expects for app_dir",
                      "the model's utf8Valid and core Lean's ByteArray.validateUTF8 are cross-checked against Rust's str::from_utf8 on every case"],
     "assumptions": COMMON_ASSUME + ["names in a directory listing are pairwise distinct",
                                     "toml/serde decode buildpack plan, store and descriptor as sampled (not modelled)"],
